@@ -28,6 +28,8 @@ RULE = ("per format (qcow2, vmdk, vhdx, vhd, vdi, hds via their generators; vmta
         "8..64 random bytes overwritten}; Hyper-V additionally directed structural mutations (gen_hyperv.struct_mutations: every key-table entry "
         "incl. inline / trailing Free entries and the zero terminator: size := 0, 1, < header, to-the-end, past-the-end, 2^31, 2^32-1, type := Free / "
         "Unknown, Free with size 0 / 1; every object-table entry: type / offset (self, table 0, EOF, 2^63..) / size / allocated; table counts / signatures); deflate bombs; rho- and loop-shaped ParentGUID graphs; tar headers with negative sizes. "
+        "VHDX bases are redrawn until the file stays below 6 MiB (10 bases per run); fixed grid of 38 VHDX images whose virtual size ends inside "
+        "a logical sector (512 / 4096; at a block boundary, inside the last / the only block, below one sector; remainder 1, 17, half, ss-1; last block present / absent / zero). "
         "Each case: open + reads at start / middle / end / whole (≤ 1 MiB) (+ listing / decoding for non-disk inputs). Expected: every call "
         "returns or raises within the watchdog, and tracemalloc's peak stays below 16 MiB + 64·(real input bytes: Python objects per table entry) + 4·(largest request). "
         "Non-trivial = a mutated (not pristine) input; distinct (family, mutation).")
@@ -142,6 +144,68 @@ def qcow2_bomb(bomb: int = 48 << 20, cluster_bits: int = 16):
     return im.finish(data_off + nsec * 512 + 512), cs
 
 
+# --------------------------------------------------------------------------- VHDX section (bases, directed families)
+# The size filter below (6 MiB per file: cost of a mutation sweep under tracemalloc) throws most random VHDX recipes away since the
+# writer got placement gaps, longer logs and a spare payload slot — a family that hangs on "whatever the random stream leaves over"
+# disappears with the next writer knob. The VHDX bases are therefore drawn from their own generator until one fits (explicit small
+# fallback), and the tail shapes are a fixed grid.
+VHDX_FILE_CAP = 6 << 20
+
+
+def vhdx_small_base(rng, m):
+    """a random single-layer VHDX recipe whose file stays below the cap: redraw, then fall back to explicit small knobs"""
+    for _ in range(60):
+        r = m.gen_vhdx.gen_recipe(rng, "quick", depth=1)
+        l = r["layers"][0]
+        if l["bs"] > (2 << 20) or len(l["blocks"]) > 4:
+            continue
+        files = m.build({"id": "x", "recipe": r, "align": 8192, "queries": []}).files
+        if all(im.size <= VHDX_FILE_CAP for im in files.values()):
+            return r
+    return {"layers": [vhdx_compact_layer(rng, m, (1 << 20) * rng.choice([1, 2]), 1 << 20, rng.choice([512, 4096]))]}
+
+
+def vhdx_compact_layer(rng, m, size, bs, ss, last_state=None):
+    """gen_vhdx.gen_layer with the file kept short: default region placement, payload blocks packed in BAT order (permuted), no
+    stale allocations; `size` may be any byte count (also one that is not a multiple of the logical sector size)"""
+    l = m.gen_vhdx.gen_layer(rng, size, bs, ss, False, "quick", rng.randrange(256))
+    for k in ("placement", "fixedlike"):
+        l.pop(k, None)
+    if last_state is not None:
+        l["blocks"][-1] = last_state
+    present = [b for b, st in enumerate(l["blocks"]) if st == 6]
+    slots = list(range(len(present)))
+    rng.shuffle(slots)
+    l["phys"] = {str(b): o for b, o in zip(present, slots)}
+    l["bitmaps"], l["stale_adjacent"], l["extra_bat"] = {}, False, 0
+    return l
+
+
+def vhdx_tail_grid(rng, m, tier):
+    """Virtual disk sizes that end in the middle of a logical sector: [MS-VHDX] stores the size in bytes, a reader rounds the
+    last request up to whole sectors, and the trailing partial sector is sector number size // ss — one past the last whole
+    sector — of a block that may itself be a partial one. Fixed grid (every run, every seed): logical sector size × where the
+    sector-aligned size ends (exactly at a block boundary / inside the last block / inside the only block / below one sector) ×
+    the odd remainder (-1, +1, half a sector, +17, one byte short of a sector) × state of the last block (present / absent / zero)."""
+    MB = 1 << 20
+    out = []
+    k = 0
+    for ss in (512, 4096):
+        shapes = [("block-multiple", 2 * MB), ("inside-last-block", MB + MB // 2), ("inside-only-block", 37 * ss), ("first-sector", 0),
+                  ("block-multiple-1", MB)] + ([("three-blocks", 3 * MB - 5 * ss)] if tier != "quick" else [])
+        for shape, size0 in shapes:
+            for delta in (-1, 1, ss // 2, 17, ss - 1):
+                size = size0 + delta
+                if size <= 0:
+                    continue
+                if tier == "quick" and (k := k + 1) % 2 == 0 and shape in ("block-multiple-1", "inside-only-block"):
+                    continue
+                st = [6, 0, 6, 2, 3, 1][len(out) % 6]
+                l = vhdx_compact_layer(rng, m, size, MB, ss, last_state=st)
+                out.append(({"layers": [l]}, ["size-not-sector-multiple", shape, f"ss{ss}", f"rem{size % ss}", f"last{st}"]))
+    return out
+
+
 # --------------------------------------------------------------------------- cases
 
 def generate(seed, tier):
@@ -155,6 +219,7 @@ def generate(seed, tier):
         c.setdefault("recipe", {k: kw.get(k) for k in ("base", "mut", "variant") if k in kw})
         cases.append(c)
     # ---- disk formats through the adapters of their property modules
+    vrng = random.Random(f"C11/vhdx/{seed}/{tier}")          # VHDX bases and directed families: independent of the other formats' stream
     for cls in DISK:
         m = _mod(cls)
         nb = 10 * mult
@@ -183,6 +248,23 @@ def generate(seed, tier):
                 r2["layers"][0]["size"] += rng.choice([-1, 1, -(r2["layers"][0]["ss"] // 2), 17])
                 if r2["layers"][0]["size"] > 0:
                     add(cls, base=r2, mut=["none"], variant=["size-not-sector-multiple"])
+        if cls == "c03":
+            # (the loop above is left as it was, draws included: the families below share its random stream.) Most of its VHDX bases
+            # are dropped by the size filter since the writer got placement gaps / longer logs / a spare slot; bases that always fit:
+            for b in range(nb):
+                r = vhdx_small_base(vrng, m)
+                files = m.build({"id": "x", "recipe": r, "align": 8192, "queries": []}).files
+                add(cls, base=r, mut=["none"])
+                for _ in range(12):
+                    add(cls, base=r, mut=gen_mutation(vrng, files))
+                if b % 2 == 0:
+                    r2 = copy.deepcopy(r)
+                    r2["layers"][0]["size"] += vrng.choice([-1, 1, -(r2["layers"][0]["ss"] // 2), 17])
+                    if r2["layers"][0]["size"] > 0:
+                        add(cls, base=r2, mut=["none"], variant=["size-not-sector-multiple"])
+            # the same as a fixed grid of explicit shapes (vhdx_tail_grid)
+            for r2, variant in vhdx_tail_grid(vrng, m, tier):
+                add(cls, base=r2, mut=["none"], variant=variant)
     # ---- qcow2 (own opener: the mutated files are used, not the pristine truth)
     import gen_qcow2
     for b in range(16 * mult):
